@@ -131,6 +131,7 @@ type Sim struct {
 	inWrite     map[*Stream]int // harness writes in progress (blocked inside WriteSCTP)
 	quiescentHooks []func()
 	wroteBytes  map[*Stream]int // bytes accepted by harness writes, per stream
+	monDone     bool
 	InvOn       bool // evaluate white-box invariants at quiescent points
 }
 
@@ -320,6 +321,7 @@ type Exec struct {
 	Stuck    []string
 	Elapsed  time.Duration // virtual
 	Internal string        // harness-internal problem (not a property violation)
+	Prefix   []int
 }
 
 type Scenario struct {
